@@ -488,3 +488,27 @@ func parseUintBound(c *ssa.Call) (ival, bool) {
 	hi := new(big.Int).Exp(base.lo, big.NewInt(n), nil)
 	return ival{big.NewInt(0), hi.Sub(hi, bigOne)}, true
 }
+
+// mayWrap: the mathematical result of an unsigned ADD/MUL can exceed the
+// type's range for operands in their current intervals.
+func (e *ienv) mayWrap(s istate, b *ssa.BinOp) bool {
+	full, ok := typeRange(b.Type(), e.sizes)
+	if !ok {
+		return false
+	}
+	x, okx := e.get(s, b.X)
+	y, oky := e.get(s, b.Y)
+	if !okx || !oky {
+		return false
+	}
+	var hi *big.Int
+	switch b.Op {
+	case token.ADD:
+		hi = new(big.Int).Add(x.hi, y.hi)
+	case token.MUL:
+		hi = new(big.Int).Mul(x.hi, y.hi)
+	default:
+		return false
+	}
+	return hi.Cmp(full.hi) > 0
+}
